@@ -121,7 +121,7 @@ fn c07(seed: u64, tier: &str, thorough: bool) -> CheckPlan {
     let mut jobs = vec![];
     for p in crate::checks::c07::catalogue() {
         let counts: Vec<u64> = if p.tail {
-            if thorough { (0..=32).chain([50, 100, 1000, 10_000, 100_000, 1_000_000]).collect() } else { vec![0, 1, 2, 3, 10, 1000, 100_000] }
+            if thorough { (0..=32).chain([50, 100, 1000, 10_000, 100_000, 300_000]).collect() } else { vec![0, 1, 2, 3, 10, 1000, 100_000] }
         } else if thorough {
             (0..=32).chain([50, 200, 1000, 3000]).collect()
         } else {
